@@ -168,7 +168,7 @@ func (g *Gate) ListKeys(ctx context.Context, p string) (iterable.Iterator[string
 
 // Acq is one acquisition attempt of a worker program.
 type Acq struct {
-	Mode byte          // 'L' Lock, 'T' TryLock, 'C' LockWithCtx (+canceller pseudo thread), 'X' LockWithCtx with already cancelled ctx
+	Mode byte          // 'L' Lock, 'T' TryLock, 'Y' TryLock with a cancelled ctx, 'C' LockWithCtx (+canceller pseudo thread), 'X' LockWithCtx with already cancelled ctx
 	Hold time.Duration // virtual hold time inside the critical section (0: none)
 }
 
@@ -367,6 +367,13 @@ func attempt(lk gsync.Locker, a Acq, w, ai int) (held bool, res string) {
 	case 'T':
 		if lk.TryLock(context.Background()) {
 			return true, "true"
+		}
+		return false, "false"
+	case 'Y': // TryLock with an already cancelled context: must fail and leave nothing behind
+		ctx, cancel := context.WithCancel(context.Background())
+		cancel()
+		if lk.TryLock(ctx) {
+			return true, "true(cancelled ctx)"
 		}
 		return false, "false"
 	case 'C', 'X':
